@@ -16,8 +16,10 @@ impl Filterer for Scripted {
 
 // case: <id> <throttle_ms> <handler_ms> <arrivals: off:id:prio(l|n|h|u):kind(t|e):verdict(p|r|e),…>
 /// `ecap` / `edelay`: capacity of the runtime-error channel and time the error consumer spends per error (a slow `on_error`)
-async fn run_case(throttle: u64, handler_ms: u64, arrivals: Vec<(u64, String, Priority, bool, char)>, changes: Vec<(u64, u64)>, ecap: usize, edelay: u64, floods: Vec<(u64, u64)>, is_async: bool) -> String {
-    let config = Arc::new(Config::default());
+async fn run_case(throttle: u64, handler_ms: u64, arrivals: Vec<(u64, String, Priority, bool, char)>, changes: Vec<(u64, u64)>, ecap: usize, edelay: u64, floods: Vec<(u64, u64)>, is_async: bool, qcap: usize) -> String {
+    // `q<N>` in the handler field: a small event queue (Config::event_channel_size and the channel itself), for bursts larger than the queue
+    let mut config = Config::default(); config.event_channel_size = qcap;
+    let config = Arc::new(config);
     config.throttle(Duration::from_millis(throttle));
     let seen_by_filter = Arc::new(Mutex::new(vec![]));
     config.filterer(Scripted(arrivals.iter().map(|a| (a.1.clone(), a.4)).collect(), seen_by_filter.clone()));
@@ -35,7 +37,7 @@ async fn run_case(throttle: u64, handler_ms: u64, arrivals: Vec<(u64, String, Pr
         if handler_ms > 0 { std::thread::sleep(Duration::from_millis(handler_ms)); }
         action } });
     }
-    let (ev_s, ev_r) = async_priority_channel::bounded(64);
+    let (ev_s, ev_r) = async_priority_channel::bounded(qcap as u64);
     let (er_s, er_r) = tokio::sync::mpsc::channel::<RuntimeError>(ecap);
     let errcount = Arc::new(std::sync::atomic::AtomicUsize::new(0));
     // edelay == 0: errors stay in the channel until the end; otherwise a slow error handler drains them one by one
@@ -93,13 +95,14 @@ fn main() {
                 let arr: Vec<(u64, String, Priority, bool, char)> = f[3].split(',').filter(|a| a.split(':').nth(1) != Some("T") && a.split(':').nth(1) != Some("F")).map(|a| { let x: Vec<&str> = a.split(':').collect();
                     (x[0].parse().unwrap(), x[1].to_string(), match x[2] { "l" => Priority::Low, "h" => Priority::High, "u" => Priority::Urgent, _ => Priority::Normal }, x[3] == "e", x[4].chars().next().unwrap()) }).collect();
                 // handler field: `<ms>` or `<ms>e<error channel capacity>x<ms per error>`
-                let (hms, ecfg) = f[2].split_once('e').map(|(a, b)| (a.to_string(), Some(b.to_string()))).unwrap_or((f[2].clone(), None));
+                let (f2, qcap): (String, usize) = match f[2].split_once('q') { Some((a, b)) => { let n: String = b.chars().take_while(|c| c.is_ascii_digit()).collect(); (format!("{a}{}", &b[n.len()..]), n.parse().unwrap()) } None => (f[2].clone(), 64) };
+                let (hms, ecfg) = f2.split_once('e').map(|(a, b)| (a.to_string(), Some(b.to_string()))).unwrap_or((f2.clone(), None));
                 let (ecap, edelay): (usize, u64) = ecfg.map(|e| { let (c, d) = e.split_once('x').unwrap(); (c.parse().unwrap(), d.parse().unwrap()) }).unwrap_or((64, 0));
                 // a leading `a`: the handler is installed with on_action_async and spends its time in the awaited future
                 let is_async = hms.starts_with('a');
                 let (th, hm) = (f[1].parse().unwrap(), hms.trim_start_matches('a').parse().unwrap());
                 let id = f[0].clone();
-                cur.push(tokio::spawn(async move { format!("{} {}", id, run_case(th, hm, arr, changes, ecap, edelay, floods, is_async).await) }));
+                cur.push(tokio::spawn(async move { format!("{} {}", id, run_case(th, hm, arr, changes, ecap, edelay, floods, is_async, qcap).await) }));
             }
             for h in cur { hs.push(h.await.unwrap()); }
         }
